@@ -123,6 +123,18 @@ def c09():
     yield "TikZ dot colour differs", "DrawTrace", "DrawC09.cfg", r, "C09_SameColours"
 
 
+def c06():
+    h = [{"a": "N", "n": 0, "x": 8, "y": 4}, {"a": "S", "n": 1, "x": 4, "y": 0}, {"a": "M", "n": 1, "x": 20, "y": 0}, {"a": "R", "n": 1, "x": 0, "y": 0}]
+    out = core.run_driver("d_node.py", stdin_obj={"seed": 1, "histories": [h], "count": 0})
+    r = out["records"][0]
+    r["ev"][1]["obs"][0]["path"] = [1]
+    yield "node heap: a label with a stub reports a path that stops at itself (model conformance)", "NodeTrace", "NodeTrace.cfg", r, "Drift_NodeObservers"
+    r = json.loads(json.dumps(out["records"][0]))
+    r["ev"][1]["obs"][0]["path"] = [1, 2]
+    r["ev"][3]["obs"][1]["stub"] = 1
+    yield "node heap: a detached stub still claims to be a stub (model conformance)", "NodeTrace", "NodeTrace.cfg", r, "Drift_NodeObservers"
+
+
 def c12():
     out = core.run_driver("d_linscale.py", stdin_obj={"mode": "map", "seed": 1, "grid": 2, "count": 0})
     recs = out["records"]
@@ -222,7 +234,7 @@ def c20():
     yield "HTML code differs in the last digit", "NamesTrace", "NamesTrace.cfg", r, "C20_ColoursAgree"
 
 
-TABLE = {"C01": c01, "C02": c02, "C03": c03, "C04": c04, "C05": c05, "C07": c07, "C08": c08, "C09": c09, "C12": c12, "C13": c13,
+TABLE = {"C01": c01, "C02": c02, "C03": c03, "C04": c04, "C05": c05, "C06": c06, "C07": c07, "C08": c08, "C09": c09, "C12": c12, "C13": c13,
          "C14": c14, "C15": c15, "C16": c16, "C17": c17, "C19": c19, "C20": c20}
 
 
@@ -232,7 +244,7 @@ def run(pid):
         return 0
     bad = 0
     for what, module, cfg, rec, clause in TABLE[pid]():
-        expect = "init" if module in ("VpscTrace", "TimeHistTrace", "LinHistTrace") else "distinct"
+        expect = "init" if module in ("VpscTrace", "TimeHistTrace", "LinHistTrace", "NodeTrace") else "distinct"
         fails, _ = core.validate_records(module, cfg, [rec], expect=expect)
         names = [f[1] for f in fails]
         ok = clause in names
